@@ -1,14 +1,16 @@
 """Registry entry for C10."""
 
 PROP = dict(
-    module="JadeModel.Props.C10Crash", ns="Jade.C10",   # imports Props/C10 and adds the torn-write theorems
+    module="JadeModel.Props.C10Live", ns="Jade.C10",   # imports Props/C10Crash (which imports Props/C10): + failed / stalled calls
     required=["C10_load_promotion_refused_while_held", "C10_promotion_refused_while_held", "C10_mutex",
               "C10_mutex_needs_protocol", "C10_demote_only_from_submitter_host", "C10_stale_rejected", "C10_stale_jobstatus_rejected",
               "C10_prepareResubmit_stale_partial", "C10_prepareResubmit_jsStale_writes_config",
               "C10_protocol_never_stale", "C10_versions_monotone", "C10_versions_agree_after_any_history",
               "C10_version_file_never_behind", "C10_torn_write_detectable", "C10_older_copy_rejected_after_crashes",
               "C10_torn_extension_conservative", "C10_empty_version_file_fails_closed", "C10_empty_version_file_stays_closed",
-              "C10_empty_version_file_no_mismatch"],
+              "C10_empty_version_file_no_mismatch",
+              "C10_live_extension_conservative", "C10_live_holder_excludes", "C10_stalled_call_holds_lock", "C10_parked_call_keeps_lock",
+              "C10_failed_handle_still_refused", "C10_failed_handle_jobstatus_still_refused", "C10_failed_write_version_reused"],
     suites=["cluster"],
     level_text="Machine-checked Lean theorems over a model of jade/jobs/cluster.py with any number of handles on any hosts, for "
                "ALL sequences of public API calls (induction over the operation list; invariants RoleInv / Coherent): promotion "
@@ -22,7 +24,16 @@ PROP = dict(
                "contents is rejected; and over the alphabet further extended by kills INSIDE a file write (TSys/TOp/stepT: a version "
                "file, written by truncate-then-write, is left EMPTY; conservative over the previous alphabet): in ANY state, while a "
                "version file is empty no API call and no kill changes that (data file, version file) pair - the code fails closed "
-               "(int('') raises in every reader) until the file is rewritten by hand. Every decision (has_submitter, am_i_submitter, the version compares, the two "
+               "(int('') raises in every reader) until the file is rewritten by hand; and over the alphabet further extended "
+               "(Model/ClusterLive.lean, conservative again) by calls one of whose file writes RAISES OSError while the handle lives on "
+               "(what the handle then holds in memory follows the statement order of _serialize/_serialize_jobs) and by calls "
+               "STALLED inside the lock section (stallBegin/stallEnd): while the lock file of a live holder is present every "
+               "lock-taking call of every other process - with or without a kill point / failing write - returns the lock timeout "
+               "and changes neither files nor handles (C10_live_holder_excludes; the model has no notion of the age of the lock "
+               "file), and a handle that failed an operation is refused like any other when its copy is out of date "
+               "(C10_failed_handle_still_refused: the handle has no memory of an earlier version check); "
+               "C10_failed_write_version_reused is a proved WITNESS of a defect of the unchanged code (findings/f9f: a failed write "
+               "of a version file leaves the handle one version ahead; after one write by anybody else its out-of-date copy is accepted). Every decision (has_submitter, am_i_submitter, the version compares, the two "
                "changed-tests incl. which remembered hash each compares against, the asserts and counter updates of "
                "_update_job_status, …) is regenerated from the source on each run; the statement order is tied by differential "
                "testing of REAL Cluster objects on real files (result enum and parsed content of the four files, backups and "
